@@ -235,3 +235,33 @@ func VerifC09_Versions(ns int) {
 		verifAssert("unsupported version: single failed item", resp.BatchItem[0].ResultStatus == kmip.ResultStatusOperationFailed && resp.BatchItem[0].ResultReason == kmip.ResultReasonInvalidMessage)
 	}
 }
+
+// VerifC08_Header: a decodable request whose header fields are arbitrary (batch
+// count any int32 — negative, huge, or disagreeing with the n items present —,
+// any protocol version, any maximum response size): HandleRequest returns a
+// response (no panic may escape to the connection goroutine), allocates nothing
+// proportional to the announced count, and runs a handler only if the count is
+// the number of items.
+func VerifC08_Header(n int) {
+	ran := 0
+	exec := NewBatchExecutor()
+	exec.Route(kmip.OperationActivate, handlerFunc(func(ctx context.Context, req kmip.OperationPayload) (kmip.OperationPayload, error) {
+		ran++
+		return &payloads.ActivateResponsePayload{}, nil
+	}))
+	req := &kmip.RequestMessage{}
+	req.Header.ProtocolVersion = kmip.ProtocolVersion{ProtocolVersionMajor: verifNondetInt32("major"), ProtocolVersionMinor: verifNondetInt32("minor")}
+	count := verifNondetInt32("count")
+	req.Header.BatchCount = count
+	req.Header.MaximumResponseSize = verifNondetInt32("maxsize")
+	for i := 0; i < n; i++ {
+		req.BatchItem = append(req.BatchItem, kmip.RequestBatchItem{Operation: kmip.OperationActivate, RequestPayload: &payloads.ActivateRequestPayload{UniqueIdentifier: "x"}})
+	}
+	verifAllocLimit("nothing is allocated in proportion to the announced batch count", 64)
+	resp := exec.HandleRequest(context.Background(), req) // a panic here is a violation
+	verifAssert("a response is produced", resp != nil)
+	if int(count) != n {
+		verifAssert("count disagreeing with the items: no handler runs", ran == 0)
+		verifAssert("count disagreeing with the items: one failed item", resp != nil && len(resp.BatchItem) == 1 && resp.BatchItem[0].ResultStatus == kmip.ResultStatusOperationFailed)
+	}
+}
